@@ -223,6 +223,13 @@ def run(out, tier, rng, work):
             sc['role'] = 'stack-originator'
             sc['plan']['holds'] = [rng.choice([1, 2, 3])]
             sc['plan']['silent_after_hold'] = True
+        if k % 10 == 8 and sc['dll'] == 'j1939-21' and not sc['bam'] and sc['size'] > 40:
+            # the peer's later clear-to-send frames name another packet than the next one (it re-requests, or skips ahead), with
+            # small grants: whichever way the stack reads that, no more packets than granted follow each of them
+            sc['role'] = 'stack-originator'
+            sc['plan']['cts_skew'] = rng.choice([-2, -1, 2, 3])
+            sc['plan']['windows'] = [rng.choice([1, 2]), rng.choice([2, 3])]
+            sc['plan']['holds'] = [0]
         res = tpconf.runner(sc)
         runs.append((sc, res))
         out.add_case(scen.sc_hash(sc), sum(1 for e in res.trace if e[2] == 'tx') > 2,
